@@ -60,6 +60,9 @@ CmdOf(dir, it) == IF Has(it, "raw") THEN [cid |-> it.cid, raw |-> it.raw]
 CmdMust(dir, it) == Has(it, "raw") \/ it.p = <<>>
                     \/ (IF dir = "down" /\ it.cid = 13 THEN DurRepresentable(it.p[1].Time)
                         ELSE MustAccept(Layout(dir, it.cid), it.p[1]))
+CmdRepr(dir, it) == Has(it, "raw") \/ it.p = <<>>
+                    \/ (IF dir = "down" /\ it.cid = 13 THEN DurRepresentable(it.p[1].Time)
+                        ELSE Representable(Layout(dir, it.cid), it.p[1]))
 \* an FOpts sequence longer than the 15-byte field has no encoding: it is refused (accepting it would frame it differently)
 OverlongFails(e) == IF e.err = "error" THEN <<>> ELSE <<"C07.stream", "C06.bytes">>
 StreamFails(e) ==
@@ -72,6 +75,8 @@ StreamFails(e) ==
       lenOK == IF e.where = "fopts" THEN e.frame[6] % 16 = Len(exp) ELSE e.frame[6] % 16 = 0 /\ e.frame[9] = 0
   IN  (IF e.err \in {"", "error"} THEN <<>> ELSE <<"C09.total">>)
    \o (IF must /\ ~ok THEN <<"C07.accept">> ELSE <<>>)
+   \* a sequence holding a command that has no encoding is refused as a whole - never sent without it or with other values
+   \o (IF ok /\ (\E i \in 1..Len(e.cmds) : ~CmdRepr(e.dir, e.cmds[i])) THEN <<"C07.reject">> ELSE <<>>)
    \o (IF ok /\ must /\ (carried # exp \/ ~lenOK) THEN <<"C06.bytes">> ELSE <<>>)
    \* the commands decoded from a frame that carries several of them are the commands that were encoded
    \* (C07: the stream is self-delimiting; C06: decoding spec-encoded bytes yields the spec field values)
